@@ -146,8 +146,19 @@ def inert_order(F, rep):
            "folds called in their arms: %s)" % seen, dep["sp"])
     # ty_dependency only yields UserType references (variables of Blob/Enum declarations)
     td = F.fn("sylt_compiler::dependency::ty_dependency")
-    inserts = [pp(c) for c in nodes(fn_body(td), "MethodCall") if c["m"] == "insert"]
-    rep.ob("INERT-ORDER", "annotation-edges-name-types-only", inserts == ["deps.insert(*r)"],
+    ins_calls = [c for c in nodes(fn_body(td), "MethodCall") if c["m"] == "insert"]
+    fl_td = Flow(td, fn_body(td))
+    only_usertype_ref = len(ins_calls) == 1
+    for c in ins_calls:
+        a = peel(c["args"][0])
+        while a.get("k") == "Unary":
+            a = peel(a["e"])
+        o = fl_td.origin.get(a.get("hid")) if a.get("k") == "Path" else None
+        # the inserted value is the first field of a `Type::UserType(r, ..)` pattern
+        only_usertype_ref = only_usertype_ref and bool(o) and o["kind"] == "arm" and any(
+            el[0] == "field" and el[1].endswith("Type::UserType") and el[2] == "0" for el in o["path"])
+    inserts = ["insert(%s)" % pp(c["args"][0]) for c in ins_calls]
+    rep.ob("INERT-ORDER", "annotation-edges-name-types-only", only_usertype_ref,
            "the only variables an annotation adds as dependencies are the `r` of UserType(r, ..): type declarations (%s)" % inserts, td["sp"])
 
 
